@@ -23,6 +23,7 @@ class Site:
         self.store_problem = None
         self.index = 0
         self.extra_conditions = []
+        self.projection = None      # the visit takes one component of every element of the field (a separate pass over the field)
 
     def label(self):
         return self.field + (f'[].{self.sub}' if self.sub else '')
@@ -128,6 +129,20 @@ class WalkerModel:
             if not c.args:
                 raise AnalysisError(f'query_traversal: recursive call without arguments at line {c.lineno}')
             src = fu.field_of(c.args[0])
+            a0 = c.args[0]
+            if src is None and isinstance(a0, (ast.ListComp, ast.GeneratorExp)) and len(a0.generators) == 1 and not a0.generators[0].ifs \
+                    and isinstance(a0.generators[0].target, ast.Name):
+                # a projection of a field's elements: [rule[0] for rule in node.rules] - one component of every element, visited as a list of its own
+                base = fu.field_of(a0.generators[0].iter)
+                elt = a0.elt
+                comp = None
+                if isinstance(elt, ast.Subscript) and isinstance(elt.value, ast.Name) and elt.value.id == a0.generators[0].target.id and isinstance(elt.slice, ast.Constant):
+                    comp = str(elt.slice.value)
+                elif isinstance(elt, ast.Attribute) and isinstance(elt.value, ast.Name) and elt.value.id == a0.generators[0].target.id:
+                    comp = elt.attr
+                if base is not None and comp is not None:
+                    src = (base[0], 'projection', None)
+                    s.projection = comp
             if src is None:
                 if isinstance(c.args[0], ast.Name) and b.classes == ['<list>']:
                     src = ('<items>', 'elem', None)
